@@ -530,6 +530,20 @@ def judgeExtra2 (hNew hOld : HCtx) (op res : Array String) (dump : Option St) : 
         else (hNew, [])
       | _, _ => (hNew, [])
     else (hNew, [])
+  | "rmcon" =>
+    -- R3: the model of `remove_constraint_edge` (clear the flag, legalise around the edge)
+    if hOld.kind == "cdt" && r0 == "bool" then
+      match parseNat (op.getD 1 ""), parseNat (op.getD 2 ""), dump with
+      | some a, some b, some d =>
+        if a < s.nV && b < s.nV && 1 < s.nF then
+          match s.removeConstraintEdgeM a b with
+          | some (m, ans) =>
+            (hNew, chk (res.getD 1 "" == (if ans then "1" else "0") && St.sameStructure m d) "C04:model,C03:model"
+              "remove-constraint-model-differs" (fun _ => s!"a={a} b={b} impl={res.toList} model={ans}"))
+          | none => (hNew, [⟨"C04:model", "remove-constraint-model-failed", s!"a={a} b={b}"⟩])
+        else (hNew, [])
+      | _, _, _ => (hNew, [])
+    else (hNew, [])
   | "rm" | "trm" | "lrm" =>
     -- R3: the removal model (`remove_core` and the DCEL operations under it) must reproduce the
     -- implementation's arrays index for index.  Plain Delaunay triangulations, every family (the
